@@ -253,3 +253,19 @@ mod tests {
         // No panics
     }
 }
+
+#[cfg(flounder_verif)]
+#[allow(dead_code)]
+impl Flounder {
+    pub fn verif_handle_command(&mut self, command: &str) {
+        self.handle_command(command);
+    }
+
+    pub fn verif_board(&self) -> &Board {
+        &self.board
+    }
+
+    pub fn verif_searcher(&mut self) -> &mut Searcher {
+        &mut self.searcher
+    }
+}
